@@ -186,10 +186,12 @@ def be_call(op, args):
 class Rec:
     """event emission with de-duplication of identical outcomes of the two entry points"""
 
-    def __init__(self, out, cls):
+    def __init__(self, out, cls, unsupported=()):
         self.out, self.cls = out, cls
         self.closure = {}          # non-WF results seen: key -> tuple
         self.nexc = 0
+        self.unsupported = set(unsupported)   # exception names that mean "operand combination not supported"
+        self.nunsupported = 0
 
     def note(self, kind, payload):
         if kind == "si":
@@ -202,6 +204,9 @@ class Rec:
         # merge identical outcomes
         merged = []
         for how, exc, kind, payload in outcomes:
+            if exc in self.unsupported or (not exc and kind == "other" and payload in self.unsupported):
+                self.nunsupported += 1
+                continue
             for m in merged:
                 if m[1:] == [exc, kind, payload]:
                     m[0] = m[0] + "+" + how
@@ -495,6 +500,10 @@ def dsis_population(W, mod3):
     return out
 
 
+# raised (or returned) when an operand combination is simply not implemented for discrete sets / value sets
+UNSUPPORTED = ("TypeError", "AssertionError", "NotImplementedType", "NotImplementedError", "ClaripyVSAOperationError",
+               "BackendUnsupportedError", "BackendError")
+
 DSIS_BIN = {"add": "__add__", "sub": "__sub__", "mul": "__mul__", "udiv": "__floordiv__", "mod": "__mod__",
             "and": "__and__", "or": "__or__", "xor": "__xor__", "shl": "__lshift__", "lshr": "LShR",
             "ashr": "__rshift__"}
@@ -576,7 +585,7 @@ def set_query_event(obj_factory, members, w, ctx, single=True):
             none = 1
         elif all(v is not None for v in vals):
             mm = [I(v) for v in vals]
-    return {"k": "q", "op": "query", "mode": "set", "A": [strip(t) for t in members], "evals": evals, "sevals": [],
+    return {"k": "q", "op": "query", "mode": "set" if single else "multi", "A": [strip(t) for t in members], "evals": evals, "sevals": [],
             "mm": mm, "none": none, "card": card, "sols": [], "qexc": sorted(set(qexc)), "cls": 0, "exc": "",
             "how": "meth", "ctx": ctx}
 
@@ -592,8 +601,9 @@ def gen_dsis(job, out, rng):
         vsa.DEFAULT_MAX_CARDINALITY_WITHOUT_COLLAPSING = job["collapse"]
         ctx = "dsis-c%d" % job["collapse"]
     popD = dsis_population(W, job.get("mod3", 13))
+    popD = [A for i, A in enumerate(popD) if i % job.get("mod_pop", 1) == 0]
     popS = [[t] for t in wf_population(W)]
-    rec = Rec(out, 0)
+    rec = Rec(out, 0, unsupported=UNSUPPORTED)
     part, nparts = job.get("part", 0), job.get("nparts", 1)
     ops = job.get("ops")
     kinds = set(job.get("kinds", ["bin", "cmp", "cat", "join", "meet"]))
@@ -665,7 +675,7 @@ EMPTY_VS = {"rg": [], "si": []}
 def vs_emit(out, base, outcomes, stats):
     merged = []
     for how, exc, kind, payload in outcomes:
-        if exc in ("NotImplementedError", "BackendUnsupportedError", "BackendError"):
+        if exc in UNSUPPORTED or (not exc and kind == "other" and payload in UNSUPPORTED):
             stats["unsupported"] = stats.get("unsupported", 0) + 1
             continue
         for m in merged:
@@ -1104,6 +1114,7 @@ def main():
     if isinstance(rec, Rec):
         extra["closure"] = list(rec.closure.values())
         extra["nexc"] = rec.nexc
+        extra["unsupported"] = rec.nunsupported
     elif isinstance(rec, dict):
         extra.update(rec)
     out.close(extra)
